@@ -667,6 +667,22 @@ class NetworkXPropertyGraph(ABCPropertyGraph, NetworkXMixin):
         # remember that graphid is ignored in get_graph in this implementation, but respected
         # in the disjoint implementation
 
+        # construct a new set of properties first: a policy that cannot be applied (the other node
+        # lacks the property) must fail before the nodes are merged, not leave a half merged node.
+        # The identity of the node (graph, id, class) always stays that of the caller's node.
+        new_props = dict()
+        if merge_properties is None:
+            new_props = node_props
+        else:
+            for k, v in node_props.items():
+                if k in merge_properties and k not in (ABCPropertyGraph.GRAPH_ID, ABCPropertyGraph.NODE_ID,
+                                                       ABCPropertyGraph.PROP_CLASS):
+                    new_props[k] = node_props[k] if merge_properties[k] == 'discard' else \
+                        other_props[k] if merge_properties[k] == 'overwrite' else \
+                            [node_props[k], other_props[k]] if merge_properties[k] == 'combine' else None
+                else:
+                    new_props[k] = node_props[k]
+
         # merge the nodes in situ
         nx.contracted_nodes(self.storage.get_graph(self.graph_id), real_node, real_other_node, copy=False)
 
@@ -676,19 +692,6 @@ class NetworkXPropertyGraph(ABCPropertyGraph, NetworkXMixin):
         # networkx leaves the same bookkeeping on every link both nodes had in common
         for _, _, link_props in self.storage.get_graph(self.graph_id).edges(real_node, data=True):
             link_props.pop('contraction', None)
-
-        # construct a new set of properties
-        new_props = dict()
-        if merge_properties is None:
-            new_props = node_props
-        else:
-            for k, v in node_props.items():
-                if k in merge_properties:
-                    new_props[k] = node_props[k] if merge_properties[k] == 'discard' else \
-                        other_props[k] if merge_properties[k] == 'overwrite' else \
-                            [node_props[k], other_props[k]] if merge_properties[k] == 'combine' else None
-                else:
-                    new_props[k] = node_props[k]
         self.storage.get_graph(self.graph_id).nodes[real_node].update(new_props)
 
     def get_stitch_nodes(self) -> List[str]:
